@@ -17,10 +17,33 @@ const (
 func init() {
 	reg("time.Now", func(e *Engine, st *State, args []Value, fn *ssa.Function) []Outcome {
 		t := e.tb
-		sec33 := t.Fresh("now.sec", 33)
 		nsec30 := t.Fresh("now.nsec", 30)
-		sec, nsec := t.ZExt(sec33, 64), t.ZExt(nsec30, 64)
-		st.log = append(st.log[:len(st.log):len(st.log)], LogEntry{Name: sec33.Name, Kind: "u64", T: []*Term{sec33}}, LogEntry{Name: nsec30.Name, Kind: "u64", T: []*Term{nsec30}})
+		nsec := t.ZExt(nsec30, 64)
+		var sec *Term
+		al, aligned := st.aux["clock.align"]
+		sl, slept := st.aux["clock.sleep"]
+		last, hasLast := st.aux["clock.last"]
+		switch {
+		case slept && hasLast:
+			// exactly that many whole seconds after the previous reading
+			sec = t.Bin(OpAdd, last.(*StructV).F[0].(*Term), t.Resize(sl.(*Term), 64, true))
+			delete2(st, "clock.sleep")
+		case aligned && al.(*Term).IsConst():
+			// minute*60 + second: the second of the minute is structural
+			m := t.Fresh("now.minute", 26)
+			sec = t.Bin(OpAdd, t.Bin(OpMul, t.ZExt(m, 64), t.Int64(60)), t.Resize(al.(*Term), 64, true))
+			st.log = append(st.log[:len(st.log):len(st.log)], LogEntry{Name: m.Name, Kind: "u64", T: []*Term{m}})
+			delete2(st, "clock.align")
+		default:
+			sec33 := t.Fresh("now.sec", 33)
+			sec = t.ZExt(sec33, 64)
+			st.log = append(st.log[:len(st.log):len(st.log)], LogEntry{Name: sec33.Name, Kind: "u64", T: []*Term{sec33}})
+			if aligned {
+				st.assume(t.Eq(t.Bin(OpURem, sec, t.Int64(60)), t.Resize(al.(*Term), 64, true)))
+				delete2(st, "clock.align")
+			}
+		}
+		st.log = append(st.log[:len(st.log):len(st.log)], LogEntry{Name: nsec30.Name, Kind: "u64", T: []*Term{nsec30}})
 		st.assume(t.Cmp(OpSLe, t.Int64(clockLo), sec))
 		st.assume(t.Cmp(OpSLe, sec, t.Int64(clockHi)))
 		st.assume(t.Cmp(OpULt, nsec, t.Int64(1_000_000_000)))
@@ -47,6 +70,20 @@ func init() {
 		}
 		return one(st, args[0])
 	})
+	// Second(): second within the minute of the UTC reading (assumption: zone offsets are whole minutes)
+	reg("(time.Time).Second", func(e *Engine, st *State, args []Value, fn *ssa.Function) []Outcome {
+		tv := args[0].(*StructV)
+		wall, ext := tv.F[0].(*Term), tv.F[1].(*Term)
+		t := e.tb
+		if !t.Eq(t.Bin(OpBAnd, wall, t.Const(64, 1<<63)), t.Const(64, 0)).IsTrue() {
+			return e.mergeOutcomes(e.execFunction(fn, args, nil, st))
+		}
+		unix := t.Bin(OpSub, ext, t.Int64(unixToInternal))
+		if r := t.Range(unix); r.slo < 0 {
+			return e.mergeOutcomes(e.execFunction(fn, args, nil, st))
+		}
+		return one(st, t.Bin(OpURem, unix, t.Int64(60)))
+	})
 	reg("time.Sleep", noop)
 	reg("time.runtimeNano", func(e *Engine, st *State, args []Value, fn *ssa.Function) []Outcome {
 		return one(st, e.tb.Int64(1))
@@ -54,3 +91,13 @@ func init() {
 }
 
 var _ = types.Typ
+
+func delete2(st *State, k string) {
+	n := make(map[string]Value, len(st.aux))
+	for a, b := range st.aux {
+		if a != k {
+			n[a] = b
+		}
+	}
+	st.aux = n
+}
